@@ -3,8 +3,10 @@ import TemprenModel.Lemmas.EscLemmas
 # C10 — Templates mean what they say: text and arguments arrive verbatim
 
 Value-level round trips, over the escape table *extracted from parser.py on every run*:
-text, strings (both quote marks), integers, booleans.  The tree-level statements
-(`parse_print`) are in `Props/C10Tree.lean`.
+text, strings (both quote marks), integers, booleans; then single texts / arguments through the
+model of the lexer and parser.  Whole trees: `Props/C10Tokens.lean` (`parse_print_tokens`: the
+parser reads back the token sequence of every printed tree) and `Props/C10Tree.lean`
+(`lex_print`, `parse_print`: the same on the template text, through the three-mode lexer).
 -/
 namespace Tempren
 namespace C10
